@@ -186,7 +186,7 @@ def main():
         if (rr[0] == "ok") != (mr[0] == "ok") or (rr[0] == "ok" and rr[1] != mr[1]):
             ck.broken_obligation("correspondence resolve vs load_commandline_flags (long lines)", {"tokens": toks, "real": rr[0], "model": mr[0]})
     # 5. malformed / unknown
-    bad_lines = [["-fnot-a-flag"], ["-fno-not-a-flag"], ["--flag", "bogus"], ["--flag", "bogus=yes"], ["--flag"], ["-O9"], ["-Ox"], ["-O"],
+    bad_lines = [["-fnot-a-flag"], ["-fno-not-a-flag"], ["--flag", "bogus"], ["--flag", "bogus=yes"], ["--flag"], ["-O9"], ["-Ox"], ["-O"], ["-O-9"], ["-O-1"], ["-O+1"], ["-O1x"],
                  ["--nonsense", "3"], ["--max-shortcircuit-fallthrough", "abc"], ["--max-shortcircuit-fallthrough"], ["-"], ["-q"],
                  ["--flag", "eof-support=yes=no"], ["-d", "nothing"], ["--dump", "bogus"], ["-o", "a.b"], ["-fEOF_SUPPORT_X"]]
     for _ in range(60 if quick else 600):
